@@ -185,6 +185,40 @@ def replay_history(ctx, driver, prog, acts, invs):
     return r, g
 
 
+def guided_histories(prog):
+    """The obvious adversarial shapes, systematically: run / edit / run-with-a-twist / revert / run, for every dependency file, where the
+    twist is --force, a failing command, a kill at every hook point or inside every command, or a torn cache file afterwards."""
+    tasks = [t["name"] for t in prog["tasks"]]
+    allreq = prog["reqsets"][-1] if prog["reqsets"] else tasks
+    def run(force=False, failing=(), crash=None, req=None):
+        return {"act": "invoke", "req": req or allreq, "force": force, "failing": list(failing), "crash": crash or {"kind": "", "k": 0}}
+    twists = [[run()], [run(force=True)]] + [[run(failing=[t])] for t in tasks] + [[run(force=True, failing=[t])] for t in tasks]
+    if prog["crash"]:
+        twists += [[run(crash={"kind": "event", "k": k})] for k in range(1, 13)] + [[run(crash={"kind": "cmd", "k": j})] for j in range(1, 2 * len(tasks) + 1)]
+        twists += [[run(), {"act": "tear", "k": k}] for k in (0, 1, 20, 60, 100)]
+    out = []
+    for f in prog["files"]:
+        c0 = prog["init"].get(f, 0)
+        c1 = 1 if c0 != 1 else 0
+        e1, e0 = {"act": "edit", "f": f, "c": c1}, {"act": "edit", "f": f, "c": c0 if c0 != 9 else 0}
+        gone = {"act": "edit", "f": f, "c": 9}
+        for tw in twists:
+            out.append([run(), e1] + tw + [e0, run()])                      # success, edit, twist, revert, run
+            out.append([e1, run(), e0] + tw + [e1, run()])                  # the same one edit later
+            out.append([run(), e1] + tw + [run(), e0, run()])               # twist, plain run, then revert
+            out.append([run(), gone] + tw + [e0, run()])                    # the file disappears and comes back
+            for t in tasks:
+                out.append([run(req=[t]), e1] + tw + [e0, run(req=[t])])
+    # de-duplicate
+    seen, uniq = set(), []
+    for h in out:
+        k = json.dumps(h, sort_keys=True)
+        if k not in seen:
+            seen.add(k)
+            uniq.append(h)
+    return uniq
+
+
 def random_walks(ctx, driver, prog, invs, nwalks, length):
     """Cheap first stage: random histories over the same action alphabet, executed for real one after the other (no state merging)
     and judged as a forest by the same TLC invariants.  It does not replace the exhaustive exploration; it finds shallow violations in
@@ -212,6 +246,7 @@ def random_walks(ctx, driver, prog, invs, nwalks, length):
                     a["crash"] = {"kind": rnd.choice(["event", "event", "cmd"]), "k": rnd.randint(1, 12)}
                 acts.append(a)
         hists.append(acts)
+    hists = guided_histories(prog) + hists
     d = ctx.sub("walk-" + prog["name"])
     json.dump(prog, open(os.path.join(d, "program.json"), "w"))
     json.dump(hists, open(os.path.join(d, "hists.json"), "w"))
@@ -220,7 +255,7 @@ def random_walks(ctx, driver, prog, invs, nwalks, length):
     if p.returncode != 0:
         raise Machinery("run-replay --batch (random walks) failed: %s" % p.stderr[-2000:])
     r = judge(ctx, d, invs, workers=2, timeout=900)
-    out = {"walks": nwalks, "length": length, "tlc_distinct": r.distinct, "violation": None}
+    out = {"walks": nwalks, "guided_histories": len(hists) - nwalks, "length": length, "tlc_distinct": r.distinct, "violation": None}
     if r.violated:
         g = vlib.read_ndjson(os.path.join(d, "graph.ndjson"))
         edges = [e for e in actions_from_trace(g, r.trace) if e["act"] != "reset"]
